@@ -1,7 +1,10 @@
 import PoryProofs.TokProvenance4
+import PoryProofs.StmtFirstTok
+import PoryProofs.DefaultTok
 import PoryProofs.Properties.C16b
 import PoryProofs.Properties.C18
 import PoryProofs.LexEof
+import PoryProofs.LexRawLines
 /-
 C16 (marker lines), parser side — "every token stored in the AST of a parsed program is a token
 of the input".
@@ -12,8 +15,8 @@ startUtf8, endUtf8) with a token of `toks` or with the end-of-input token
 
 FINDING (the statement as first posed is FALSE of the model, and of the Go parser it mirrors):
 the value token of the `default` case of a `switch` statement is the zero token `{}` (line 0), not
-a token of the input (`parseSwitchCases`: `cases ++ [(({} : Tok), true, body)]`; in Go the
-`SwitchCase` of `default` has no `Value` token).  `C16b.progToks p` counts the value token of every
+a token of the input (`parseSwitchCases`: `cases ++ [(({} : Tok), true, body)]`; in Go,
+`parser.go`: `&ast.SwitchCase{IsDefault: true, Body: body}` — `Value` stays the zero `token.Token`).  `C16b.progToks p` counts the value token of every
 case, also of the default case, so `∀ t ∈ C16b.progToks p, FromInput toks t` fails:
 `parsed_tokens_from_input_literal_false` (witness: `script S { switch (var(V)) { default: end } }`).
 The emitter never writes a marker for that token (`switchBranchCases` / `switchTrailing` only take
@@ -28,15 +31,28 @@ theorems of C16b are re-proved for this smaller set in `PoryProofs/MarkerLinesND
    top level, implicit texts / movements, program: `TokProvenance4.lean`).
    `raw_tokens_from_input` : the value token of a raw statement IS a `RAWSTRING` token of the
    input (not only positioned at one) and the value is its literal.
+   `parsed_tokens_from_input_or_zero` : for the token set of C16b as it stands,
+   `∀ t ∈ C16b.progToks p, FromInput toks t ∨ t = {}` — the zero token of `default` cases is the only
+   exception (`PoryProofs/DefaultTok.lean`: in a parsed program every `default` case carries `{}`,
+   `dzAll`, a second induction through the statement block; `progToks_nd_subset`: the smaller set is
+   a subset of the C16b set, and the C16b set is the smaller set plus those zero tokens).
 2. `parsed_mart_wf` : `C16b.MartWF p` (and the same for the copy `C16nd.MartWF`).
 3. `marker_lines_in_input` : for `toks = lexAll src`, every marker of `emitProgram o p` names
-   `o.inputPath` and a line `1 ≤ n ≤ lineOf src` (`lineOf src` = number of lines of `src`).
-   Hypothesis genuinely needed for the raw-block part (the emitter writes a marker
-   `vtok.line + i` for the `i`-th line of the value): `hraw` — a `RAWSTRING` token of the lexer
-   output does not have more lines than the source has from its start line on.  This is a fact
-   about the lexer alone; it is not proved here (no lemma about the literal of `RAWSTRING` tokens
-   exists yet), everything else is.
-4. `statement_token_is_first` (stretch): see the section at the end of the file.
+   `o.inputPath` and a line `1 ≤ n ≤ lineOf src` (`lineOf src` = number of lines of `src`), for every
+   source, environment and option set — no hypothesis left.  The raw-block part (the emitter writes
+   the marker `vtok.line + i` for the `i`-th line of the value) needs a fact about the lexer alone:
+   a `RAWSTRING` token does not have more lines than the source has from its start line on.  It is
+   proved in `PoryProofs/LexRawLines.lean` (`lexAll_raw_splitLines`); the version of the theorem
+   with that fact as hypothesis `hraw` is kept as `marker_lines_in_input_of`.
+4. `statement_token_is_first` (stretch, proved in full in the form that is true): when
+   `parseStatement` succeeds from `s` and the current token is not `poryswitch`, it returns
+   `pre ++ [st]` where the token stored in `st` (command token / label token / `if`, `while`, `do`,
+   `switch`, `break`, `continue` keyword token: `stmtTok st`) IS the current token
+   `s.toks.headD s.eof` — the whole token, not only its position — and `pre = []`, except for a
+   `switch` over an auto-var command, where `pre = [.cmd c]` is the preamble command and `c.tok` is
+   the third token of the window (`switch ( cmd …`).  A `poryswitch` statement splices the statements
+   of the selected case (none, one or several, each parsed by `parseStatement` at a later position)
+   and is excluded; for it only theorem 1 applies.  (`PoryProofs/StmtFirstTok.lean`.)
 -/
 namespace Pory.C16c
 open Pory Pory.Parser Pory.Emit
@@ -87,6 +103,19 @@ theorem parsed_tokens_from_input (env : Env) (toks : List Tok) (p : Program)
   · exact (hp.tops top h1).1 t h2
   · exact hp.texts x h1
 
+/-- The token set of C16b as it stands: every token is positioned at an input token or is the zero
+token (the value token of a `default` switch case). -/
+theorem parsed_tokens_from_input_or_zero (env : Env) (toks : List Tok) (p : Program)
+    (h : parseTokens env toks = .ok p) : ∀ t ∈ C16b.progToks p, FromInput toks t ∨ t = {} := by
+  intro t ht
+  rcases mem_progToks_b (parseTokens_dz h) ht with h1 | h1
+  · exact Or.inl (parsed_tokens_from_input env toks p h t h1)
+  · exact Or.inr h1
+
+/-- The smaller token set is a subset of the token set of C16b (for every program). -/
+theorem progToks_nd_subset (p : Program) : ∀ t ∈ C16nd.progToks p, t ∈ C16b.progToks p :=
+  fun _ h => mem_progToks_nd h
+
 /-- The value token of a raw statement is a `RAWSTRING` token of the input itself, and the value is
 its literal. -/
 theorem raw_tokens_from_input (env : Env) (toks : List Tok) (p : Program)
@@ -116,9 +145,8 @@ theorem mem_inputToks_lexAll (src : List Char) (t : Tok) (h : t ∈ inputToks (L
     rw [h, List.getLastD_eq_getLast?, List.getLast?_eq_some_getLast hne, Option.getD_some]
     exact List.getLast_mem hne
 
-/-- **C16, end to end.** Source → tokens → AST → output: every line marker names the input path and
-a line of the source.  `hraw` is the one fact about the lexer that is assumed (see the header). -/
-theorem marker_lines_in_input (src : List Char) (env : Env) (o : Opts) (p : Program) (ls : List Line)
+/-- End-to-end statement with the lexer fact about raw strings as a hypothesis. -/
+theorem marker_lines_in_input_of (src : List Char) (env : Env) (o : Opts) (p : Program) (ls : List Line)
     (hp : parseTokens env (Lexer.lexAll src) = .ok p) (he : emitProgram o p = .ok ls)
     (hraw : ∀ t ∈ Lexer.lexAll src, t.type = .RAWSTRING →
       t.line + (splitLines t.lit.toList).length ≤ LexPos.lineOf src + 1) :
@@ -135,7 +163,14 @@ theorem marker_lines_in_input (src : List Char) (env : Env) (o : Opts) (p : Prog
     obtain ⟨h1, rfl, h3⟩ := raw_tokens_from_input env _ p hp tok vtok v hr
     exact hraw vtok (mem_inputToks_lexAll src vtok h1) h3
 
-/-- The same without the raw-block hypothesis, for programs without `raw` statements. -/
+/-- **C16, end to end.** Source → tokens → AST → output: every line marker names the input path and
+a line of the source. -/
+theorem marker_lines_in_input (src : List Char) (env : Env) (o : Opts) (p : Program) (ls : List Line)
+    (hp : parseTokens env (Lexer.lexAll src) = .ok p) (he : emitProgram o p = .ok ls) :
+    ∀ n path, Line.marker n path ∈ ls → path = o.inputPath ∧ 1 ≤ n ∧ n ≤ LexPos.lineOf src :=
+  marker_lines_in_input_of src env o p ls hp he (LexRaw.lexAll_raw_splitLines src)
+
+/-- The same for programs without `raw` statements, without using the lexer fact. -/
 theorem marker_lines_in_input_no_raw (src : List Char) (env : Env) (o : Opts) (p : Program) (ls : List Line)
     (hp : parseTokens env (Lexer.lexAll src) = .ok p) (he : emitProgram o p = .ok ls)
     (hnr : ∀ tok vtok v, Top.raw tok vtok v ∉ p.tops) :
@@ -254,12 +289,6 @@ example : ∃ p, parseTokens {} exToks = .ok p ∧ (C16nd.progToks p).length = 1
     have := congrArg List.length key.1
     simpa using this
 
-/-- The lexer fact assumed by theorem 3 holds for the example source. -/
-theorem ex_hraw : ∀ t ∈ Lexer.lexAll exSrc.toList, t.type = .RAWSTRING →
-    t.line + (splitLines t.lit.toList).length ≤ LexPos.lineOf exSrc.toList + 1 := by
-  rw [exToks_eq]
-  decide +kernel
-
 /-- Theorem 3 on the example: source → tokens → AST → output; all 12 markers are in `1 … 13`. -/
 example : ∃ p ls, parseTokens {} (Lexer.lexAll exSrc.toList) = .ok p ∧ emitProgram exOpts p = .ok ls ∧
     (C16nd.markers ls).length = 12 ∧
@@ -279,8 +308,41 @@ example : ∃ p ls, parseTokens {} (Lexer.lexAll exSrc.toList) = .ok p ∧ emitP
       refine ⟨p, ls, rfl, he, by rw [key.2]; rfl, ?_⟩
       have h' : parseTokens {} (Lexer.lexAll exSrc.toList) = .ok p := by rw [exToks_eq]; exact h
       have hl : LexPos.lineOf exSrc.toList = 13 := by decide +kernel
-      have := marker_lines_in_input exSrc.toList {} exOpts p ls h' he ex_hraw
+      have := marker_lines_in_input exSrc.toList {} exOpts p ls h' he
       rw [hl] at this
       exact this
+
+/-! ### 4. the token of a statement is the token the parser started at -/
+
+/-- **Stretch.** See the file header. -/
+theorem statement_token_is_first (env : Env) (sn : String) (fuel : Nat) (s s' : PState) (sts : List Stmt)
+    (imp : ImpData) (h : (parseStatement env sn fuel).run s = .ok ((sts, imp), s'))
+    (hps : (s.toks.headD s.eof).type ≠ .PORYSWITCH) :
+    ∃ pre st, sts = pre ++ [st] ∧ stmtTok st = s.toks.headD s.eof ∧
+      (pre = [] ∨ ((s.toks.headD s.eof).type = .SWITCH ∧
+        ∃ c, pre = [.cmd c] ∧ c.tok = s.toks.tail.tail.headD s.eof)) :=
+  parseStatement_first_tok_run h hps
+
+/-- The state in which the parser starts the `if` statement of the example (4th token). -/
+def exStmtState : PState := { toks := exToks.drop 3, eof := mk .EOF "" 13 0 1 13 0 1, breakStack := [] }
+
+/-- Non-vacuity: the `if` statement of the example parses from that state, to one statement. -/
+theorem ex_stmt_parses :
+    (match (parseStatement {} "S" 60).run exStmtState with
+     | .ok ((sts, _), _) => sts.length == 1
+     | .error _ => false) = true := by decide +kernel
+
+example : ∃ sts imp s', (parseStatement {} "S" 60).run exStmtState = .ok ((sts, imp), s') ∧
+    ∃ st, sts = [st] ∧ stmtTok st = mk .IF "if" 2 2 2 2 4 4 := by
+  have key := ex_stmt_parses
+  cases h : (parseStatement {} "S" 60).run exStmtState with
+  | error e => rw [h] at key; cases key
+  | ok r =>
+    obtain ⟨⟨sts, imp⟩, s'⟩ := r
+    refine ⟨sts, imp, s', rfl, ?_⟩
+    obtain ⟨pre, st, h1, h2, h3⟩ := statement_token_is_first {} "S" 60 exStmtState s' sts imp h (by decide)
+    rcases h3 with rfl | ⟨hsw, _⟩
+    · exact ⟨st, h1, h2⟩
+    · exact absurd hsw (by decide)
 
 end Pory.C16c
